@@ -695,26 +695,34 @@ int api_op(const char *name, int lineno)
         memset(iv, 0, 16);
         memcpy(iv, BA[1], BL[1] < 16 ? BL[1] : 16);
         if (!st) st = srtp_cipher_set_iv(c, iv, srtp_direction_encrypt);
+        /* IA[0]: bits 0-3 misalignment of the source; bit 4: not in place, then bits 5-8 = misalignment of the destination
+           and bits 9-16 = the octet the destination is pre-filled with (the model ignores IA[0]: the result must not depend on it) */
         size_t mis = (size_t)IA[0] & 15;
+        int oop = (int)((IA[0] >> 4) & 1);
+        size_t dmis = (size_t)(IA[0] >> 5) & 15;
         uint8_t *raw = malloc(BL[2] + 16);
         uint8_t *buf = raw + mis;
+        uint8_t *raw2 = malloc(BL[2] + 16);
+        uint8_t *dst = oop ? raw2 + dmis : buf;
         memcpy(buf, BA[2], BL[2]);
+        memset(raw2, (int)((IA[0] >> 9) & 255), BL[2] + 16);
         size_t off = 0;
         for (int i = 1; i < NI && off < BL[2] && !st; i++) {
             size_t n = (size_t)IA[i];
             if (n > BL[2] - off) n = BL[2] - off;
             size_t ol = n;
-            st = srtp_cipher_encrypt(c, buf + off, n, buf + off, &ol);
+            st = srtp_cipher_encrypt(c, buf + off, n, dst + off, &ol);
             if (!st) off += n;
         }
         if (!st && off < BL[2]) {
             size_t n = BL[2] - off, ol = n;
-            st = srtp_cipher_encrypt(c, buf + off, n, buf + off, &ol);
+            st = srtp_cipher_encrypt(c, buf + off, n, dst + off, &ol);
             if (!st) off += n;
         }
         out_z(st);
-        out_bytes(buf, off);
+        out_bytes(dst, off);
         free(raw);
+        free(raw2);
         srtp_cipher_dealloc(c);
         return 1;
     }
